@@ -7,7 +7,7 @@ from ..cfg import cfg_of
 from ..core import (
     ancestors, assigns_to, attrs_in, body_walk, call_attr, call_name, calls_in, const_value, dict_items, dotted,
     enclosing_func, enclosing_stmt, handler_catches, in_block, is_const, kwarg, mentions, names_in, nodes_of_type,
-    parent, stores_to, unparse, walk_local, param_names,
+    parent, stores_to, unparse, walk_local, param_names, Undecidable,
 )
 
 MEM = "joblib/memory.py"
@@ -398,6 +398,44 @@ def delete_tolerant(ctx):
         fn = S(ctx, q)
         c = [x for x in calls_in(fn) if call_name(x) == "self.clear_location"]
         ctx.check(bool(c), c[0] if c else fn, "%s deletes through clear_location" % q)
+
+
+def delete_folder_loop(ctx):
+    """disk.delete_folder: the retry loop (Memory.clear of a directory another process is clearing too) ends on
+    success, ends quietly when the directory is already gone, and gives up after a bounded number of failures."""
+    from ..core import cond_facts
+    f = ctx.repo.func("joblib/disk.py", "delete_folder")
+    g = cfg_of(f)
+    lp = [n for n in nodes_of_type(f, ast.While)]
+    if len(lp) != 1:
+        raise Undecidable("delete_folder has %d while loops (one declared)" % len(lp))
+    lp = lp[0]
+    rm = [c for c in calls_in(lp) if call_name(c) == "shutil.rmtree"]
+    ctx.check(bool(rm), rm[0] if rm else lp, "the loop removes the tree", "delete_folder no longer removes the tree")
+    hs = [h for t in nodes_of_type(lp, ast.Try) for h in t.handlers if handler_catches(h, ["OSError"])]
+    ctx.check(bool(hs), hs[0] if hs else lp, "failures of listdir/rmtree are caught inside the loop")
+    # (a success that does not `break` is harmless: the next listdir fails, the handler sees the directory gone)
+    for h in hs:
+        gone = [b for b in walk_local(ast.Module(body=h.body, type_ignores=[])) if isinstance(b, (ast.Break, ast.Return))]
+        okg = [b for b in gone if ("os.path.exists(folder_path)", False) in cond_facts(g.conditions_at(g.nodes_of(b)))]
+        ctx.check(bool(okg) and len(okg) == len(gone), gone[0] if gone else h, "a failure because the directory has vanished (another process deleted it) ends the loop quietly",
+                  "the handler leaves the loop under %s, not under `not os.path.exists(folder_path)`" % [cond_facts(g.conditions_at(g.nodes_of(b))) for b in gone])
+        inc = [a for a in walk_local(ast.Module(body=h.body, type_ignores=[])) if isinstance(a, ast.AugAssign) and isinstance(a.op, ast.Add) and isinstance(a.target, ast.Name)]
+        rs = [r for r in walk_local(ast.Module(body=h.body, type_ignores=[])) if isinstance(r, ast.Raise)]
+        ctx.check(bool(inc) and bool(rs), inc[0] if inc else h, "every other failure is counted and re-raised once the count passes the limit",
+                  "the retry loop of delete_folder does not both count failures and re-raise: it can spin forever on a directory that cannot be deleted")
+        if inc and rs:
+            cnt = inc[0].target.id
+            # the counter is incremented on every path through the handler that stays in the loop
+            stay = g.nodes_of(lp)
+            ctx.check(g.every_path_from(g.nodes_of(h), set(g.nodes_of_all(inc)) | set(g.nodes_of_all(gone)), stay, skip_exc=True), inc[0], "each failed attempt that retries increments the counter")
+            for r in rs:
+                fc = cond_facts([c_ for c_ in g.conditions_at(g.nodes_of(r)) if in_block(c_[0], h.body)])
+                lim = [f_ for f_ in fc if f_[0] in ("RM_SUBDIRS_N_RETRY < %s" % cnt, "%s > RM_SUBDIRS_N_RETRY" % cnt, "RM_SUBDIRS_N_RETRY <= %s" % cnt, "%s >= RM_SUBDIRS_N_RETRY" % cnt) and f_[1]]
+                ctx.check(bool(lim), r, "re-raised when the counter exceeds RM_SUBDIRS_N_RETRY", "the error is re-raised under %s" % fc)
+            init = [a for a in nodes_of_type(f, ast.Assign) if cnt in stores_to(a) and is_const(a.value, 0)]
+            ctx.check(bool(init) and not any(in_block(a, lp.body) for a in init), init[0] if init else f, "the counter starts at 0 outside the loop (not reset per attempt)",
+                      "the failure counter is reset inside the loop: the retry limit is never reached")
 
 
 # ---------------------------------------------------------------------------
